@@ -341,7 +341,8 @@ def run_config(cfgspec, ch, res):
         res.violation(
             f"engine:{v[0]}:{fault[0] if fault else 'no-fault'}" + (f":{extra_daemons}-daemon" if extra_daemons else ""),
             f"hosts={hname} fault={fault} extra_daemons={extra_daemons} preserve={preserve} external={external} choices={list(ch.choices)}: {v[1]}",
-            {"cfg": [hname, list(fault) if fault else None, extra_daemons, preserve, external], "choices": list(ch.choices)},
+            {"cfg": [hname, list(fault) if fault else None, extra_daemons, preserve, external], "choices": list(ch.choices),
+             "ignore_timers": bool(_S.get("ignore_timers", False))},
         )
 
 
@@ -385,6 +386,8 @@ def run(tier, seed):
 
 def replay(data):
     res = Result()
+    setup()
+    _S["ignore_timers"] = bool(data.get("ignore_timers", False))
     c = data["cfg"]
     fault = (c[1][0], tuple(c[1][1]) if isinstance(c[1][1], list) else c[1][1]) if c[1] else None
     run_config((c[0], fault, c[2], c[3], c[4]), explore.Chooser(tuple(data["choices"])), res)
